@@ -123,3 +123,25 @@ V('C04', 'c04v-pop-form', [(CMG, "        connection = self.open_connections.get
 V('C04', 'c04v-in-form', [(PARSE, "        if not conn_id in self.known_connections:", "        if conn_id not in self.known_connections:")])
 V('C04', 'c04v-early-return-style', [(CMG, "        connection = self.open_connections.get(connection_id)\n        if connection:\n            del self.open_connections[connection_id]\n            # Connection will still be in connection list\n            connection.close(time)",
                                        "        connection = self.open_connections.get(connection_id)\n        if not connection:\n            return\n        del self.open_connections[connection_id]\n        connection.close(time)")])
+
+# ---- C06 -----------------------------------------------------------------------------------------
+CTL = 'frontends/tui/controller.py'
+MAT = 'core/matcher.py'
+M('C06', 'c06-no-filter', [(CTL, "            if self.display_matcher.matches(message):\n                self._show_message(message)", "            if True:\n                self._show_message(message)")], 'C06.2')
+M('C06', 'c06-filter-inverted', [(CTL, "            if self.display_matcher.matches(message):\n                self._show_message(message)", "            if not self.display_matcher.matches(message):\n                self._show_message(message)")], 'C06.2')
+M('C06', 'c06-ignore-selection', [(CTL, "        if self.current_connection is None or connection == self.current_connection:\n            if self.display_matcher", "        if True:\n            if self.display_matcher")], 'C06.2')
+M('C06', 'c06-selection-inverted', [(CTL, "or connection == self.current_connection:\n            if self.display_matcher", "or connection != self.current_connection:\n            if self.display_matcher")], 'C06.2')
+M('C06', 'c06-record-only-shown', [(CTL, "        self.all_messages.append(message)\n        if self.current_connection is None or connection == self.current_connection:\n            if self.display_matcher.matches(message):\n                self._show_message(message)",
+                                     "        if self.current_connection is None or connection == self.current_connection:\n            if self.display_matcher.matches(message):\n                self.all_messages.append(message)\n                self._show_message(message)")], 'C06.1')
+M('C06', 'c06-show-needs-stop-too', [(CTL, "            if self.display_matcher.matches(message):\n                self._show_message(message)", "            if self.display_matcher.matches(message) and not self.stop_matcher.matches(message):\n                self._show_message(message)")], 'C06.2')
+M('C06', 'c06-filter-replays', [(CTL, "            self.out.show('Only showing messages that match ' + str(self.display_matcher))", "            self.out.show('Only showing messages that match ' + str(self.display_matcher))\n            self.show_messages(self.current_connection, self.display_matcher, None)")], 'C06.4')
+M('C06', 'c06-filter-clears-record', [(CTL, "            self.display_matcher = self.parse_and_join(arg, self.display_matcher)\n", "            self.display_matcher = self.parse_and_join(arg, self.display_matcher)\n            self.all_messages.clear()\n")], 'C06')
+M('C06', 'c06-double-listener', [(CTL, "        self.last_shown_timestamp: Optional[float] = None\n        self.ui_state_listener", "        self.last_shown_timestamp: Optional[float] = None\n        for c in connection_list.connections():\n            c.add_connection_listener(self)\n        self.ui_state_listener")], 'C06.3')
+M('C06', 'c06-notify-before-record', [(CI, "        self.message_list.append(message)\n        message.resolve(self)\n        self.listener.connection_got_new_message(self, message)", "        message.resolve(self)\n        self.listener.connection_got_new_message(self, message)\n        self.message_list.append(message)")], 'C06.1')
+M('C06', 'c06-matcher-caches', [(MAT, "    def matches(self, arg: wl.Arg.Base) -> bool:\n        return isinstance(arg, wl.Arg.String) and self.wrapped.matches(arg.value)", "    def matches(self, arg: wl.Arg.Base) -> bool:\n        arg.name = arg.name or 'str'\n        return isinstance(arg, wl.Arg.String) and self.wrapped.matches(arg.value)")], 'C06.5')
+M('C06', 'c06-matches-wrong-message', [(CTL, "            if self.display_matcher.matches(message):\n                self._show_message(message)", "            if self.display_matcher.matches(self.all_messages[0]):\n                self._show_message(message)")], 'C06.2')
+M('C06', 'c06-show-previous', [(CTL, "            if self.display_matcher.matches(message):\n                self._show_message(message)", "            if self.display_matcher.matches(message):\n                self._show_message(self.all_messages[0])")], 'C06.3')
+M('C06', 'c06-show-twice-direct', [(CTL, "        self.last_shown_timestamp = message.timestamp\n        message.show(self.out)", "        self.last_shown_timestamp = message.timestamp\n        message.show(self.out)\n        if message.destroyed_obj:\n            message.show(self.out)")], 'C06.3')
+V('C06', 'c06v-early-return', [(CTL, "        if self.current_connection is None or connection == self.current_connection:\n            if self.display_matcher.matches(message):\n                self._show_message(message)\n            if self.stop_matcher.matches(message):\n                self.out.show(color(alert_color, '    Stopped at ') + str(message).strip())\n                self.ui_state_listener.pause_requested()",
+                                 "        if self.current_connection is not None and connection != self.current_connection:\n            return\n        if self.display_matcher.matches(message):\n            self._show_message(message)\n        if self.stop_matcher.matches(message):\n            self.out.show(color(alert_color, '    Stopped at ') + str(message).strip())\n            self.ui_state_listener.pause_requested()")])
+V('C06', 'c06v-hoisted-temp', [(CTL, "            if self.display_matcher.matches(message):\n                self._show_message(message)", "            visible = self.display_matcher.matches(message)\n            if visible:\n                self._show_message(message)")])
